@@ -429,6 +429,9 @@ pub trait KD: VC {
     fn contains(_m: usize, _regs: &[Seq<Self>], _a: &Sd, _b: &Sd) -> Option<bool> {
         None
     }
+    fn seq_cmp(_a: &Seq<Self>, _b: &Seq<Self>) -> Option<(core::cmp::Ordering, Option<core::cmp::Ordering>)> {
+        None
+    }
     fn xlate(_m: usize, _s: &SeqSlice<Self>) -> Option<Vec<String>> {
         None
     }
@@ -469,6 +472,9 @@ macro_rules! kd_arms {
 }
 
 impl KD for Dna {
+    fn seq_cmp(a: &Seq<Self>, b: &Seq<Self>) -> Option<(core::cmp::Ordering, Option<core::cmp::Ordering>)> {
+        Some((a.cmp(b), a.partial_cmp(b)))
+    }
     fn kdispatch(st: &mut St<Self>, k: usize, w: u8, name: &str, t: &mut Toks) {
         kd_arms!(st, k, w, name, t, true, true ;
             us: [1,2,3,4,5,6,7,8,9,10,11,12,13,14,15,16,17,18,19,20,21,22,23,24,25,26,27,28,29,30,31,32] ;
@@ -545,6 +551,9 @@ impl KD for Amino {
     }
 }
 impl KD for text::Dna {
+    fn seq_cmp(a: &Seq<Self>, b: &Seq<Self>) -> Option<(core::cmp::Ordering, Option<core::cmp::Ordering>)> {
+        Some((a.cmp(b), a.partial_cmp(b)))
+    }
     fn kdispatch(st: &mut St<Self>, k: usize, w: u8, name: &str, t: &mut Toks) {
         kd_arms!(st, k, w, name, t, false, true ;
             us: [1,2,3,4,5,6,7,8] ;
@@ -552,6 +561,9 @@ impl KD for text::Dna {
     }
 }
 impl KD for masked::Dna {
+    fn seq_cmp(a: &Seq<Self>, b: &Seq<Self>) -> Option<(core::cmp::Ordering, Option<core::cmp::Ordering>)> {
+        Some((a.cmp(b), a.partial_cmp(b)))
+    }
     fn kdispatch(st: &mut St<Self>, k: usize, w: u8, name: &str, t: &mut Toks) {
         kd_arms!(st, k, w, name, t, false, true ;
             us: [1,2,3,4,5,6,7,8,9,10,11,12,13,14,15,16] ;
@@ -559,6 +571,9 @@ impl KD for masked::Dna {
     }
 }
 impl KD for masked::Iupac {
+    fn seq_cmp(a: &Seq<Self>, b: &Seq<Self>) -> Option<(core::cmp::Ordering, Option<core::cmp::Ordering>)> {
+        Some((a.cmp(b), a.partial_cmp(b)))
+    }
     fn kdispatch(st: &mut St<Self>, k: usize, w: u8, name: &str, t: &mut Toks) {
         kd_arms!(st, k, w, name, t, false, true ;
             us: [1,2,3,4,5,6,7,8,9,10,11,12] ;
@@ -566,6 +581,9 @@ impl KD for masked::Iupac {
     }
 }
 impl KD for degenerate::Dna {
+    fn seq_cmp(a: &Seq<Self>, b: &Seq<Self>) -> Option<(core::cmp::Ordering, Option<core::cmp::Ordering>)> {
+        Some((a.cmp(b), a.partial_cmp(b)))
+    }
     fn kdispatch(st: &mut St<Self>, k: usize, w: u8, name: &str, t: &mut Toks) {
         kd_arms!(st, k, w, name, t, false, true ;
             us: [1,2,3,7,8,9,31,32,33,63,64] ;
@@ -970,8 +988,7 @@ where
         "cmp" => {
             let a = t.num();
             let b = t.num();
-            let c = st.regs[a].cmp(&st.regs[b]);
-            let pc = st.regs[a].partial_cmp(&st.regs[b]);
+            let (c, pc) = A::seq_cmp(&st.regs[a], &st.regs[b]).expect("cmp: codecs that are Ord only");
             assert!(pc == Some(c));
             st.out.push(ordnum(c).to_string());
         }
